@@ -158,6 +158,9 @@ func c10Child(raw json.RawMessage) any {
 				m.mu.Unlock()
 			}
 			live[i].ms.Close()
+			// (a document expires long after its owner's last heart-beat: no monitor round of the member that left is still in
+			// flight then. Let the one that may be drain before its document disappears - it would look for itself in vain.)
+			time.Sleep(3 * c10Monitor)
 			allKey := reservedPrefix + "grp:instance:all"
 			e.c.Lock()
 			idx := e.c.Docs[allKey]
